@@ -1,0 +1,28 @@
+// SPDX-FileCopyrightText: 2020-present Open Networking Foundation <info@opennetworking.org>
+//
+// SPDX-License-Identifier: Apache-2.0
+
+//go:build verif
+
+package transaction
+
+import (
+	configapi "github.com/onosproject/onos-api/go/onos/config/v3"
+	"github.com/onosproject/onos-config/pkg/pluginregistry"
+	"github.com/onosproject/onos-config/pkg/southbound/gnmi"
+	"github.com/onosproject/onos-config/pkg/store/topo"
+	configurationstore "github.com/onosproject/onos-config/pkg/store/v3/configuration"
+	transactionstore "github.com/onosproject/onos-config/pkg/store/v3/transaction"
+	"github.com/onosproject/onos-lib-go/pkg/controller"
+)
+
+// NewReconcilerForVerif returns the v3 transaction reconciler on its own, without the controller runtime
+func NewReconcilerForVerif(nodeID configapi.NodeID, transactions transactionstore.Store, configurations configurationstore.Store,
+	conns gnmi.ConnManager, topo topo.Store, plugins pluginregistry.PluginRegistry) controller.Reconciler {
+	return &Reconciler{nodeID: nodeID, transactions: transactions, configurations: configurations, conns: conns, topo: topo, plugins: plugins}
+}
+
+// NewWatchersForVerif returns the v3 transaction controller's watchers, in the order NewController registers them
+func NewWatchersForVerif(transactions transactionstore.Store, configurations configurationstore.Store) []controller.Watcher {
+	return []controller.Watcher{&Watcher{transactions: transactions}, &ConfigurationWatcher{configurations: configurations}}
+}
